@@ -289,6 +289,7 @@ func mapOrigins(cg cgView, v ssa.Value, depth int, out map[string]bool) {
 	case *ssa.MakeMap:
 		out[fmt.Sprintf("make@%d", x.Pos())] = true
 	case *ssa.Parameter:
+		out[fmt.Sprintf("param:%s", x.Name())] = true
 		for _, s := range cg.callersOf(x.Parent()) {
 			for i, q := range x.Parent().Params {
 				if q == x && i < len(s.Common().Args) {
@@ -312,6 +313,18 @@ func mapOrigins(cg cgView, v ssa.Value, depth int, out map[string]bool) {
 				for _, r := range *al.Referrers() {
 					if st, ok := r.(*ssa.Store); ok && st.Addr == al {
 						mapOrigins(cg, st.Val, depth+1, out)
+					}
+				}
+			}
+			if fv, ok := x.X.(*ssa.FreeVar); ok {
+				// a variable of the enclosing function captured by a closure
+				if cell := freeVarBinding(fv); cell != nil {
+					if refs := cell.Referrers(); refs != nil {
+						for _, r := range *refs {
+							if st, ok := r.(*ssa.Store); ok && st.Addr == cell {
+								mapOrigins(cg, st.Val, depth+1, out)
+							}
+						}
 					}
 				}
 			}
@@ -590,4 +603,47 @@ func ruleIndent(c *Ctx) {
 		fmt.Sprintf("%d padding computation(s) depend on both Options.IndentSize and Options.MinAlignmentColumn", nPad),
 		"no padding in front of an amount depends on both Options.IndentSize and Options.MinAlignmentColumn: with a larger indent the longest account overruns the column and amounts are no longer aligned, or the minimum column has no influence")
 	c.check(nIndent >= 1, "C05-INDENT", "formatter", "emitted indent is Options.IndentSize blanks", token.NoPos, "an indent string is built from Options.IndentSize alone", "no indent string is built from Options.IndentSize")
+}
+
+// freeVarBinding: the cell of the enclosing function that a closure's free variable is bound to.
+func freeVarBinding(fv *ssa.FreeVar) ssa.Value {
+	fn := fv.Parent()
+	parent := fn.Parent()
+	if parent == nil {
+		return nil
+	}
+	idx := -1
+	for i, q := range fn.FreeVars {
+		if q == fv {
+			idx = i
+		}
+	}
+	for _, b := range parent.Blocks {
+		for _, ins := range b.Instrs {
+			if mc, ok := ins.(*ssa.MakeClosure); ok && mc.Fn == fn && idx >= 0 && idx < len(mc.Bindings) {
+				return mc.Bindings[idx]
+			}
+		}
+	}
+	return nil
+}
+
+// inCycle: the block can reach itself (it is part of a loop).
+func inCycle(b *ssa.BasicBlock) bool {
+	seen := map[*ssa.BasicBlock]bool{}
+	var w []*ssa.BasicBlock
+	w = append(w, b.Succs...)
+	for len(w) > 0 {
+		x := w[len(w)-1]
+		w = w[:len(w)-1]
+		if x == b {
+			return true
+		}
+		if seen[x] {
+			continue
+		}
+		seen[x] = true
+		w = append(w, x.Succs...)
+	}
+	return false
 }
